@@ -25,7 +25,7 @@ PROP = "C10"
 LEVEL = "exploration"
 RULE = ("seeded histories (5..30 steps) interleaving traffic steps - peer sends to one of the UUT's pipes with a "
         "seeded length, UUT sends to a listening or deaf peer, TX FIFO pre-loading with write_only, ACK payloads "
-        "loaded on either side, power cycles, leaving and re-entering the mode - with every accessor call and argument form; dynamic and per-pipe static payload "
+        "loaded on either side, power cycles, leaving and re-entering the mode, read-only get_payload_length(pipe) queries - with every accessor call and argument form; dynamic, per-pipe static and mixed (dynamic on some pipes only) payload "
         "modes. Non-trivial: at least one payload entered a FIFO of the UUT; distinct = distinct abstract event "
         "sequences")
 ASSUMPTIONS = ["chip model decisions M1 (cached STATUS is pre-command, hence cached attributes are compared after update()), M5, M6",
@@ -64,6 +64,12 @@ def make(i, base_seed, tier, lite=False):
     if lite:
         scn["pl"] = [scn["pl"][0]] * 6
     scn["pipes"] = sorted(set(scn["pipes"]))
+    xr = stream(seed, "ext")
+    if not lite and xr.random() < 0.15:
+        # dynamic payloads per pipe (the attribute takes a mask / list): some pipes dynamic, the others - pipe 0 among them in most of
+        # the masks - on their static lengths; what the next payload's length is follows the pipe it arrived on
+        scn["dynmask"] = xr.choice([0x3E, 0x3E, 0x02, 0x22, 0x14, 0x2A, 0x01, 0x03, 0x2D])
+        scn["ackpl"] = False
     ops = []
     for _ in range(rng.randint(5, 30)):
         k = rng.random()
@@ -78,8 +84,10 @@ def make(i, base_seed, tier, lite=False):
             ops.append({"op": rng.choice(["uut_load_ack", "peer_load_ack"]), "pipe": rng.choice(scn["pipes"]), "n": rng.randint(1, 32),
                         "seed": rng.getrandbits(16)})
         else:
-            a = rng.choice(ACC)
+            a = rng.choice(ACC if lite else ACC + ["get_pl"])
             op = {"op": a}
+            if a == "get_pl":
+                op["pipe"] = rng.randrange(6)
             if a == "fifo":
                 op["about_tx"] = rng.random() < 0.5
                 op["check_empty"] = rng.choice([None, True, False])
@@ -121,8 +129,16 @@ def _run(scn, w, res):
     for p in range(2, 6):
         addrs[p] = bytes([0x30 + p]) + base
     peer_addr = b"\x77\x66\x55\x44\x33"
+    mask = scn.get("dynmask")
     for d in (uut, peer):
         d.dynamic_payloads = dyn
+    if mask is not None:
+        uut.dynamic_payloads = mask
+        sim.count("per_pipe_dynamic_payloads")
+
+    def dyn_rx(p):
+        return dyn if mask is None else bool(mask >> p & 1)
+    dyn_tx = dyn_rx(0)
     if lite:
         uut.payload_length = scn["pl"][0]
     else:
@@ -167,7 +183,7 @@ def _run(scn, w, res):
         h = head()
         if h is None:
             return 0
-        return len(h[1]) if dyn else scn["pl"][h[0]]
+        return len(h[1]) if dyn_rx(h[0]) else scn["pl"][h[0]]
 
     def settle():
         """the accessor clauses are stated for a quiescent peer/medium: let autonomous radio activity end"""
@@ -182,7 +198,9 @@ def _run(scn, w, res):
         sim.log("call", "U", o)
         if o == "peer_send":
             set_mode("rx")
-            n = op["n"] if dyn else scn["pl"][op["pipe"]]
+            n = op["n"] if dyn_rx(op["pipe"]) else scn["pl"][op["pipe"]]
+            if mask is not None:
+                peer.dynamic_payloads = dyn_rx(op["pipe"])
             peer.payload_length = n
             peer.open_tx_pipe(addrs[op["pipe"]])
             before = len(ru.rx_fifo)
@@ -192,7 +210,9 @@ def _run(scn, w, res):
             set_mode("tx")
             if op["deaf"]:
                 peer.listen = False
-            n = op["n"] if dyn else scn["pl"][0]
+            n = op["n"] if dyn_tx else scn["pl"][0]
+            if mask is not None:
+                peer.dynamic_payloads = dyn_tx
             peer.payload_length = n
             # refresh the cached STATUS first: after write(write_only=True) filled the TX FIFO the cached byte is
             # one transaction old (M1) and send() would spin forever on a write() that refused the payload -
@@ -209,7 +229,7 @@ def _run(scn, w, res):
         elif o == "uut_preload":
             set_mode("tx")
             uut.ce_pin = False
-            n = op["n"] if dyn else scn["pl"][0]
+            n = op["n"] if dyn_tx else scn["pl"][0]
             before = len(ru.tx_fifo)
             uut.write(_bytes(op["seed"], n), write_only=True)  # its return value is not part of C10
             traffic += 1
@@ -232,6 +252,14 @@ def _run(scn, w, res):
             want = head()[0] if head() else None
             if uut.pipe != want:
                 res.add("accessors", {"kind": "pipe"}, "pipe = %r after update(), head payload is on pipe %r" % (uut.pipe, want))
+        elif o == "get_pl":
+            # a read-only query of one pipe's static length (its answer is C03's business; here: it must not change what the
+            # accessors say about the FIFO)
+            uut.get_payload_length(op["pipe"])
+            got = uut.any()
+            if got != exp_len():
+                res.add("accessors", {"kind": "any_after_get_payload_length", "dyn": dyn}, "get_payload_length(%d), then any() = %r; next payload: pipe %r length %r"
+                        % (op["pipe"], got, head()[0] if head() else None, exp_len()))
         elif o == "any":
             got = uut.any()
             if got != exp_len():
